@@ -13,5 +13,10 @@ add("C09",
     "Trusted: the numpy thresholding model; the similarity reported by data-driven subclasses and the grid's angular distances are inputs; pairs within a few float32 ulps of the threshold are not judged where the code works in mixed precision.",
     "deterministic simulation: seeded operation histories against an executable reference model",
     "DESIGN.md §4 C09")
-for _p in ("C01", "C05", "C06", "C13", "C15", "C17"):
+add("C13",
+    "Seeded search over histories of set_window / set_global_window interleaved with reads of observable, grid, window and every derived series (phase means, anomalies, phase indices, selected phases/months, shuffled anomaly) on Data and ClimateData, both settings of the anomalies flag; a boolean-mask model on the full arrays decides every step, incl. the restore-global history invariant, zero phase means and anomaly + phase mean = windowed observable. Sampling, not enumeration.",
+    "Trusted: the mask model; coordinates and bounds are generated float32-exact; windows with exactly one degenerate spatial axis and empty selections are not judged.",
+    "deterministic simulation: seeded operation histories against an executable reference model",
+    "DESIGN.md §4 C13")
+for _p in ("C01", "C05", "C06", "C15", "C17"):
     PENDING[_p] = "in the family (DESIGN §4) but its check is not built yet in this commit; not claimed until it is"
